@@ -25,6 +25,8 @@ StartOf(tr) == NormInst(JulToDay(tr.sdate), HmsToSec(tr.stime), 0)
 ExpSdate(tr, i) == CivilOf("std", AddSec(StartOf(tr), (i - 1) * HmsToSec(tr.tstep)))
 ExpTau(tr, i) == CivilOf("std", AddUnits(<<DayNum("std", 1985, 1, 1), 0, 0>>, "hours", tr.w[i], tr.q[i]))
 
+InstIo(tr, i) == IF tr.kind = "tflag" THEN NormInst(JulToDay(tr.dates[i]), HmsToSec(tr.times[i]), 0)
+                 ELSE AddSec(StartOf(tr), (i - 1) * HmsToSec(tr.tstep))
 Expected(tr, i) ==
   CASE tr.kind = "cf" -> ExpCF(tr, i)
     [] tr.kind = "tflag" -> ExpTflag(tr, i)
@@ -98,6 +100,14 @@ TStep ==
              /\ \A i \in 1..NExpected(tr) :
                   Chk(tr, i, "synthesised time_bounds: edge " \o ToString(i), tr.synth.bgot[i], Expected(tr, i))
              /\ Chk(tr, NExpected(tr) + 1, "synthesised time_bounds: upper edge", tr.synth.bgot[NExpected(tr) + 1], ExpUpper(tr))
+             \* the same file starting synth.shift days later, with its own synthesised
+             \* variable, stacked behind: the instants of the first, then of the second
+             /\ (tr.synth.shift > 0) =>
+                  /\ ChkT(tr, 1, "stack of two synthesised time variables: length", Len(tr.synth.sgot) = 2 * NExpected(tr))
+                  /\ \A i \in 1..NExpected(tr) : Showable(Expected(tr, i)) =>
+                       /\ Chk(tr, i, "stack of two synthesised time variables: instant of the first file", tr.synth.sgot[i], Expected(tr, i))
+                       /\ Chk(tr, i, "stack of two synthesised time variables: instant of the second file",
+                              tr.synth.sgot[NExpected(tr) + i], CivilOf("std", AddSec(InstIo(tr, i), tr.synth.shift * 86400)))
   /\ TrAccept(tr)
 
 TSpec == TInit /\ [][TStep]_tvars
